@@ -230,6 +230,11 @@ def run(rep, tier, seed):
                 rf = rnd.choice(r.field_descriptors)
                 add(b, RuleFieldDescriptor, rf, 'rule-field-descriptor:%s/%s' % (MOC[MO(rf.matching_operator)], CDAC[CDA(rf.compression_decompression_action)]), 'J rfd ' + ' '.join(rfd_tokens(rf)))
             add(b, RuleDescriptor, r, 'rule:' + ('compression' if r.nature is RuleNature.COMPRESSION else 'no-compression'), 'J rule ' + ' '.join(rule_tokens(r)))
+        if i % 6 == 1:
+            # a compression rule that has no descriptor (yet): a legal rule, it serialises with an empty list and reloads
+            r_e = RuleDescriptor(id=mk(randbits(rnd, rnd.randint(0, 9)), rnd.choice([L, R])), field_descriptors=[])
+            add(b, RuleDescriptor, r_e, 'rule:compression-without-descriptors', 'J rule ' + ' '.join(rule_tokens(r_e)))
+            rules.insert(rnd.randrange(len(rules) + 1), r_e)
         if i % 10 == 3:
             # a rule of fragmentation nature has no JSON form in this library (NotImplementedError, both ways): correspondence only
             fr = RuleDescriptor(id=mk(randbits(rnd, rnd.randint(1, 9)), rnd.choice([L, R])), nature=RuleNature.FRAGMENTATION,
